@@ -70,7 +70,11 @@ def gen_cases(tier, seed, scale=1):
         ops, on = [], True
         live = len(leaves)
         for _ in range(rnd.randrange(1, 6)):
-            op = rnd.choice(["update", "rereg", "disable", "retire", "retire"]) if on else "enable"
+            op = rnd.choice(["update", "rereg", "disable", "retire", "retire", "unwrap"]) if on else "enable"
+            if op == "unwrap" and (live <= 1 or "g" not in leaves):
+                op = "update"
+            if op == "unwrap":
+                live -= 1
             if op == "retire":
                 if live <= 1:
                     op = "update"
@@ -86,6 +90,7 @@ def gen_cases(tier, seed, scale=1):
     for leaves in ("gr", "rg", "grg", "ggr", "rr", "tg", "gt", "tgr", "gtg", "ttg"):
         lines.append("composite %s update,rereg,disable,enable,update" % leaves)
         lines.append("composite %s update,retire,update,disable,enable" % leaves)
+        lines.append("composite %s unwrap,update,unwrap,update" % leaves)
     return lines
 
 
